@@ -106,6 +106,8 @@ def call(sys_, op):
     elif o == "add_comp":
         par = op["parent"]
         par = list(par) if isinstance(par, list) else par
+        if op.get("parent_form") == "tuple" and isinstance(par, list):
+            par = tuple(par)              # an argument FORM the documented API does not list (parent: str | list)
         _, e, _ = quiet(lambda: sys_.add_comp(par, comp=mk(op["comp"]), group=op["group"], rail=op["rail"]))
     elif o == "change_comp":
         _, e, _ = quiet(lambda: sys_.change_comp(op["name"], comp=mk(op["comp"]), group=op["group"], rail=op["rail"]))
@@ -546,6 +548,10 @@ def wire_op(op):
     o = dict(op)
     if "comp" in o:
         o["comp"] = wire_comp(o["comp"])
+    if o.get("parent_form") == "tuple":
+        # system.py takes anything that is not a list for ONE parent name: a tuple is the (unknown) name "('A', 'B')"
+        o["parent"] = repr(tuple(o["parent"]))
+        o.pop("parent_form", None)
     if o["op"] == "set_sys_phases":
         o["phases"] = [[k, repr(float(v))] for k, v in op["phases"]]
     if o["op"] == "set_comp_phases" and op["conf"] != "bad" and "table" in op["conf"]:
